@@ -873,6 +873,40 @@ def ob_spectral_flag(law, n):
     return Verdict(DISCHARGED, backend="native", detail=f"converged spectral {int(ok1.sum())}/{ok1.size}, newton {int(ok2.sum())}/{ok2.size}")
 
 
+def ob_readback(cfg, seed):
+    """Behavior.Compute_stress(eps, z) READS the stress of a state: at the state Integrate just returned it gives the stress Integrate returned (no flow, no time step), for
+    rate-independent and rate-dependent behaviours, in 3-D, plane strain and plane stress"""
+    from EasyFEA.FEM._linalg import FeArray
+    b = make_behavior(cfg)
+    dim = cfg.get("dim", 3)
+    P = _paths(seed, 6 if dim == 3 else 3)
+    Ne, nPg, nstep, _ = P.shape
+    z = b.State_zeros(Ne, nPg)
+    n, flowed = 0, False
+    for k in range(1, min(nstep, 14)):
+        eps = FeArray.asfearray(P[:, :, k].copy())
+        sig, _, z2, ok = b.Integrate(eps, z, 0.05)
+        ok = np.asarray(ok, dtype=bool)
+        if b.layout.n and (np.abs(np.asarray(z2) - np.asarray(z)).max() > 0):
+            flowed = True
+        try:
+            back = np.asarray(b.Compute_stress(eps, z2))
+        except Exception as ex:
+            raise Refuted(f"{cfg_name(cfg)} step {k}: Compute_stress at the state Integrate returned raises {type(ex).__name__}: {str(ex)[:160]}", cex=dict(config=cfg, seed=seed, step=k),
+                          signature=f"readback:{cfg_name(cfg)}:raises", replay=dict(confirmed=True, raised=repr(ex)[:200]))
+        sg = np.asarray(sig)
+        if ok.any():
+            e = float(np.abs(back - sg)[ok].max() / 250.0)
+            n += 1
+            if not e < 1e-6:
+                raise Refuted(f"{cfg_name(cfg)} step {k}: Compute_stress(eps, z) differs from the stress Integrate returned with that state by {e:.3e} sigma_y", cex=dict(config=cfg, seed=seed, step=k),
+                              signature=f"readback:{cfg_name(cfg)}", replay=dict(confirmed=True, err=e))
+        z = z2
+    if b.layout.n and not flowed:
+        raise Unsupported("the paths never change the state")
+    return Verdict(DISCHARGED, backend="native", sub=n)
+
+
 def ob_elastic(dim, planeStress):
     from EasyFEA import Models
     from EasyFEA.FEM._linalg import FeArray
@@ -1092,6 +1126,11 @@ def build(tier, seed):
                 dict(surface="VonMises", hardening="Linear", dim=2, planeStress=True), dict(surface="Hill", hardening="Voce", dim=2), dict(surface="VonMises", hardening="Linear", rate="Norton")]:
         obs.append(Ob(f"C19.solvers.{cfg_name(cfg)}", ob_solvers, (cfg, seed + 1), "X", ("EasyFEA/Models/InElastic/_spectral.py::Solve", f"{BEH}::Behavior.__Flow"), bound="12 seeded strain paths",
                       clause="spectral return == local Newton (stress 1e-6 sigma_y, state 1e-9)", timeout=1800))
+    for cfg in (dict(surface="VonMises", hardening="Linear"), dict(surface="VonMises", hardening="Linear", rate="Norton"), dict(surface="VonMises", hardening="Linear", dim=2, planeStress=True),
+                dict(surface="VonMises", hardening="Linear", rate="Norton", dim=2, planeStress=True), dict(surface="VonMises", hardening="Voce", kinematic="AF", rate="Norton", dim=2, planeStress=True),
+                dict(surface="VonMises", hardening="Linear", branches=1, dim=2, planeStress=True), dict(surface="Hill", hardening="Linear", dim=2)):
+        obs.append(Ob(f"C19.readback.{cfg_name(cfg)}", ob_readback, (cfg, seed + 3), "X", (f"{BEH}::Behavior.Compute_stress", f"{BEH}::Behavior.Compute_strain_6d"), bound="12 seeded strain paths, 13 steps",
+                      clause="Compute_stress(eps, z) at the state Integrate returned == the stress Integrate returned (a read: no flow, no time)", timeout=900))
     for law, n in (("Norton", 1.0), ("Norton", 3.0), ("Norton", 5.0), ("Norton", 8.0), ("Perzyna", 6.0)):
         obs.append(Ob(f"C19.solvers.flag.{law}.n{int(n)}", ob_spectral_flag, (law, n), "X", ("EasyFEA/Models/InElastic/_spectral.py::Solve", f"{BEH}::Behavior.__Spectral"), bound="6 strain states, one step",
                       clause="a point the spectral solve reports as converged satisfies f == inverse(dp/dt) (1e-6 sigma_y) and agrees with the local Newton", timeout=600))
